@@ -545,14 +545,35 @@ def Rows.flatLabels : Rows → List Label
   | .flat xs => xs
   | .nested xs => xs.flatten
 
+/-- `_validate_pos_label`: the labels of the given vocabulary, else of the data -/
+def labelsFor (r : RawCfg) (b : Batch) : List Label :=
+  match r.vocab with
+  | some (x :: xs) => (x :: xs).map Prod.fst
+  | _ => b.yTrue.flatLabels ++ b.yPred.flatLabels
+
 /-- `utils.verify_input`: for binary input with binary average the positive label must occur in the
 vocabulary (given, or deduced from the data) -/
 def verifyInput (r : RawCfg) (b : Batch) : Except ErrKind Unit :=
   if r.average == "binary" && r.inputType == "binary" then
-    let labels := match r.vocab with
-      | some (x :: xs) => (x :: xs).map Prod.fst
-      | _ => b.yTrue.flatLabels ++ b.yPred.flatLabels
-    if labels.contains r.posLabel then .ok () else .error .value
+    if (labelsFor r b).contains r.posLabel then .ok () else .error .value
   else .ok ()
+
+/-- the accumulator path of the wrapper `ClassificationAggFn`: `create_state`, one `update_state`,
+`get_result` (= `AggregateFn.__call__`) -/
+def accumulate (sqrt : Rat → Rat) (c : Cfg) (b : Batch) : Except ErrKind Result :=
+  match c.kind with
+  | .samplewise => do
+    let r ← swAdd sqrt c SwState.empty b
+    swResult c r.2
+  | _ => do
+    let st ← feedApi c [b]
+    getResult sqrt c st
+
+/-- the module-level functions `precision(y_true, y_pred, ...)`, …, `classification_metrics(...)`:
+`verify_input`, then `ClassificationAggFn(...)(y_true, y_pred)` -/
+def oneShot (sqrt : Rat → Rat) (r : RawCfg) (b : Batch) : Except ErrKind Result := do
+  verifyInput r b
+  let c ← constructWrapper r
+  accumulate sqrt c b
 
 end MlModel.Agg.Confusion
